@@ -201,17 +201,26 @@ struct MapEntry {
 /// flags(ENTRY_ID_DELTA|PATCH_FORMAT|CODEPOINTS_BIT_1), int24 delta, u8 format, sparse-bit-set {0..17};
 /// `pad` bytes between the header and the entries move the applied-bit indices.
 fn ift_format2(compat: &[u8; 16], pad: usize, entries: &[MapEntry]) -> Vec<u8> {
-    let mut b: Vec<u8> = vec![2, 0, 0, 0, 0];
+    ift_format2_ext(compat, pad, entries, None, None)
+}
+
+/// with the optional `cff_charstrings_offset` / `cff2_charstrings_offset` header fields
+fn ift_format2_ext(compat: &[u8; 16], pad: usize, entries: &[MapEntry], cff: Option<u32>, cff2: Option<u32>) -> Vec<u8> {
+    let flags = (if cff.is_some() { 1u8 } else { 0 }) | (if cff2.is_some() { 2 } else { 0 });
+    let mut b: Vec<u8> = vec![2, 0, 0, 0, flags];
     b.extend_from_slice(compat);
     b.push(3); // default patch format
     let n = entries.len() as u32;
     b.extend_from_slice(&n.to_be_bytes()[1..]);
     let uri = b"foo/{id}";
-    let entries_off = (5 + 16 + 1 + 3 + 4 + 4 + 2 + uri.len() + pad) as u32;
+    let extra = 4 * (cff.is_some() as usize + cff2.is_some() as usize);
+    let entries_off = (5 + 16 + 1 + 3 + 4 + 4 + 2 + uri.len() + extra + pad) as u32;
     b.extend_from_slice(&entries_off.to_be_bytes());
     b.extend_from_slice(&0u32.to_be_bytes());
     b.extend_from_slice(&(uri.len() as u16).to_be_bytes());
     b.extend_from_slice(uri);
+    if let Some(o) = cff { b.extend_from_slice(&o.to_be_bytes()); }
+    if let Some(o) = cff2 { b.extend_from_slice(&o.to_be_bytes()); }
     b.extend(std::iter::repeat(0u8).take(pad));
     for e in entries {
         b.push(0b0001_1100 | if e.ignored { 0b0100_0000 } else { 0 });
@@ -1382,6 +1391,69 @@ fn apply_seq(s: &mut Session, font: &[u8], groups: &[&[(&Info, &GkPatch)]], inpu
     tables_of(&cur).ok_or(Some("unreadable".to_string()))
 }
 
+
+/// how two table sets differ: not at all, only in the offset width chosen for gvar / CFF / CFF2
+/// (same glyph data, modulo the one zero pad byte short gvar offsets force), or really
+enum Diff { Same, WidthOnly(String), Real(String) }
+
+fn explain_diff(want: &Tables, got: &Tables) -> Diff {
+    if want.len() != got.len() { return Diff::Real(format!("{} vs {} tables", want.len(), got.len())); }
+    let ift = get(want, IFT_);
+    let cff_at = |v2: bool| -> Option<usize> {
+        let d = ift?;
+        let flags = *d.get(4)?;
+        let ul = u16::from_be_bytes([*d.get(33)?, *d.get(34)?]) as usize;
+        let mut p = 35 + ul;
+        if !v2 { if flags & 1 == 0 { return None; } } else { if flags & 2 == 0 { return None; } if flags & 1 != 0 { p += 4; } }
+        Some(u32::from_be_bytes(d.get(p..p + 4)?.try_into().ok()?) as usize)
+    };
+    let mut width_only: Vec<String> = vec![];
+    for ((ta, da), (tb, db)) in want.iter().zip(got) {
+        if ta != tb { return Diff::Real(format!("tag {} vs {}", hex(&ta.to_be_bytes()), hex(&tb.to_be_bytes()))); }
+        if canon_head(*ta, da) == canon_head(*tb, db) { continue; }
+        let t = hex(&ta.to_be_bytes());
+        if *ta == CFF_ || *ta == CFF2 {
+            let v2 = *ta == CFF2;
+            let ok = match cff_at(v2).and_then(|at| Some((cff_read(da, at, v2)?, cff_read(db, at, v2)?))) {
+                Some((a, b)) => a.prefix == b.prefix && a.glyphs == b.glyphs && a.off_size != b.off_size,
+                None => false,
+            };
+            if ok { width_only.push(format!("{t}: offSize differs, charstrings identical")); continue; }
+            return Diff::Real(format!("table {t} differs ({} vs {} bytes)", da.len(), db.len()));
+        }
+        if *ta == GVAR {
+            let ok = match (gvar_read(da), gvar_read(db)) {
+                (Some(a), Some(b)) => a.axis == b.axis && a.tuples == b.tuples && a.glyphs.len() == b.glyphs.len() && a.long != b.long
+                    && a.glyphs.iter().zip(&b.glyphs).all(|(x, y)| x == y
+                        || (x.len() == y.len() + 1 && x.len() % 2 == 0 && x[..y.len()] == y[..] && x[y.len()] == 0)
+                        || (y.len() == x.len() + 1 && y.len() % 2 == 0 && y[..x.len()] == x[..] && y[x.len()] == 0)),
+                _ => false,
+            };
+            if ok { width_only.push(format!("{t}: short/long offsets differ, glyph data identical up to the pad byte")); continue; }
+            return Diff::Real(format!("table {t} differs ({} vs {} bytes)", da.len(), db.len()));
+        }
+        return Diff::Real(format!("table {t} differs ({} vs {} bytes)", da.len(), db.len()));
+    }
+    if width_only.is_empty() { Diff::Same } else { Diff::WidthOnly(width_only.join("; ")) }
+}
+
+/// the grouping / order oracle: identical tables; a difference that is only the offset width kept
+/// from a larger intermediate font is reported under its own name (known finding)
+fn same_tables_oracle(s: &mut Session, name: &str, r: Result<Tables, Option<String>>, want: &Tables, input: &dyn Fn() -> String, what: &str) {
+    match r {
+        Err(None) => {}
+        Err(Some(e)) => s.oracle(name, false, input, || format!("{what}: {e}")),
+        Ok(g) => match explain_diff(want, &g) {
+            Diff::Same => s.oracle(name, true, input, String::new),
+            Diff::Real(d) => s.oracle(name, false, input, || format!("{what}: {d}")),
+            Diff::WidthOnly(d) => {
+                s.count("grouping:offset-width-differs");
+                s.oracle("grouping:offset-width-independent-of-intermediate-sizes", false, input, || format!("{what}: {d}"));
+            }
+        },
+    }
+}
+
 /// Err(IncompatiblePatch) expected with zero decoder calls, whatever the order
 fn expect_incompatible(s: &mut Session, font: &[u8], base: &Tables, pairs: &[(&Info, &GkPatch)], what: &str, case_no: usize) {
     for rev in [false, true] {
@@ -1519,33 +1591,18 @@ fn run_gk_groups(s: &mut Session, rng: &mut Rng, n_cases: usize) {
                 for ord in &orders {
                     let o: Vec<(&Info, &GkPatch)> = ord.iter().map(|&i| pairs[i]).collect();
                     let input = || format!("group#{case_no} sets {sets:?} order {ord:?}: {}", req0.chars().take(3000).collect::<String>());
-                    match apply_seq(s, &font, &[&o[..]], &input) {
-                        Err(None) => {}
-                        r => {
-                            let diff = match r { Ok(g) => all_tables_equal(&g, &want), Err(e) => e };
-                            s.oracle("group:any-order-identical-tables", diff.is_none(), input, || diff.clone().unwrap_or_default());
-                        }
-                    }
+                    let r = apply_seq(s, &font, &[&o[..]], &input);
+                    same_tables_oracle(s, "group:any-order-identical-tables", r, &want, &input, "one call");
                     // every sequential two-way split of this order
                     for cut in 1..n_p {
-                        match apply_seq(s, &font, &[&o[..cut], &o[cut..]], &input) {
-                            Err(None) => {}
-                            r => {
-                                let diff = match r { Ok(g) => all_tables_equal(&g, &want), Err(e) => e };
-                                s.oracle("group:any-grouping-identical-tables", diff.is_none(), input, || format!("split at {cut}: {}", diff.clone().unwrap_or_default()));
-                            }
-                        }
+                        let r = apply_seq(s, &font, &[&o[..cut], &o[cut..]], &input);
+                        same_tables_oracle(s, "group:any-grouping-identical-tables", r, &want, &input, &format!("split at {cut}"));
                     }
                 }
                 // one by one
                 let singles: Vec<&[(&Info, &GkPatch)]> = pairs.iter().map(std::slice::from_ref).collect();
-                match apply_seq(s, &font, &singles, &input0) {
-                    Err(None) => {}
-                    r => {
-                        let diff = match r { Ok(g) => all_tables_equal(&g, &want), Err(e) => e };
-                        s.oracle("group:one-by-one-identical-tables", diff.is_none(), input0, || diff.clone().unwrap_or_default());
-                    }
-                }
+                let r = apply_seq(s, &font, &singles, &input0);
+                same_tables_oracle(s, "group:one-by-one-identical-tables", r, &want, &input0, "one by one");
             }
         }
     }
@@ -1648,6 +1705,213 @@ fn run_boundary(s: &mut Session, rng: &mut Rng) {
                     }
                     _ => s.oracle("boundary:gvar-applies-with-widening", false, input, || resp.clone()),
                 }
+            }
+        }
+    }
+}
+
+
+// ------------------------------------------------------------------------------------------
+// CFF / CFF2 (oracle only, like gvar)
+// ------------------------------------------------------------------------------------------
+
+const CFF_: u32 = 0x43464620;
+const CFF2: u32 = 0x43464632;
+
+#[derive(Clone, Debug)]
+struct CffSpec {
+    v2: bool,
+    off_size: u8,
+    /// everything before the charstrings INDEX (header, the other INDEXes, filler)
+    prefix: Vec<u8>,
+    glyphs: Vec<Vec<u8>>,
+}
+
+fn be_n(v: usize, w: usize) -> Vec<u8> {
+    (v as u32).to_be_bytes()[4 - w..].to_vec()
+}
+
+fn cff_prefix(rng: &mut Rng, v2: bool) -> Vec<u8> {
+    let mut b = vec![];
+    if v2 {
+        let tl = rng.below(6) as usize;
+        let top = rng.bytes(tl);
+        b.extend_from_slice(&[2, 0, 5]);
+        b.extend_from_slice(&(top.len() as u16).to_be_bytes());
+        b.extend_from_slice(&top);
+        b.extend_from_slice(&[0, 0, 0, 1, 1, 1, 2, rng.next() as u8]); // global subrs INDEX (1 object)
+    } else {
+        b.extend_from_slice(&[1, 0, 4, 1]);
+        for _ in 0..4 {
+            b.extend_from_slice(&[0, 1, 1, 1, 2, rng.next() as u8]); // name / top dict / string / gsubr INDEX
+        }
+    }
+    let fl = rng.below(9) as usize;
+    b.extend_from_slice(&rng.bytes(fl)); // charsets, private dicts, ... (opaque)
+    b
+}
+
+fn cff_bytes(c: &CffSpec) -> Vec<u8> {
+    let mut b = c.prefix.clone();
+    let n = c.glyphs.len();
+    if c.v2 { b.extend_from_slice(&(n as u32).to_be_bytes()); } else { b.extend_from_slice(&(n as u16).to_be_bytes()); }
+    b.push(c.off_size);
+    let mut o = 1usize;
+    for i in 0..=n {
+        b.extend_from_slice(&be_n(o, c.off_size as usize));
+        if i < n { o += c.glyphs[i].len(); }
+    }
+    for g in &c.glyphs { b.extend_from_slice(g); }
+    b
+}
+
+/// independent reader: the charstrings INDEX at `at` must run to the end of the table
+fn cff_read(b: &[u8], at: usize, v2: bool) -> Option<CffSpec> {
+    let cw = if v2 { 4 } else { 2 };
+    if b.len() < at + cw + 1 { return None; }
+    let n = if v2 { u32::from_be_bytes(b[at..at + 4].try_into().ok()?) as usize } else { u16::from_be_bytes(b[at..at + 2].try_into().ok()?) as usize };
+    let w = b[at + cw] as usize;
+    if !(1..=4).contains(&w) { return None; }
+    let ob = at + cw + 1;
+    if b.len() < ob + (n + 1) * w { return None; }
+    let offs: Vec<usize> = (0..=n).map(|i| b[ob + i * w..ob + (i + 1) * w].iter().fold(0usize, |a, x| a * 256 + *x as usize)).collect();
+    let db = ob + (n + 1) * w;
+    if offs[0] != 1 { return None; }
+    let mut glyphs = vec![];
+    for i in 0..n {
+        if offs[i] > offs[i + 1] || db + offs[i + 1] - 1 > b.len() { return None; }
+        glyphs.push(b[db + offs[i] - 1..db + offs[i + 1] - 1].to_vec());
+    }
+    if db + offs[n] - 1 != b.len() { return None; }
+    Some(CffSpec { v2, off_size: w as u8, prefix: b[..at].to_vec(), glyphs })
+}
+
+fn cff_max(off_size: u8) -> usize {
+    (1usize << (8 * off_size as usize)) - 2
+}
+
+fn cff_oracles(s: &mut Session, base: &CffSpec, out_bytes: &[u8], applied: &[(&Info, &GkPatch)], input: &dyn Fn() -> String) {
+    let tag = if base.v2 { CFF2 } else { CFF_ };
+    let name = if base.v2 { "cff2" } else { "cff" };
+    let repl = first_wins(applied, tag);
+    let Some(out) = cff_read(out_bytes, base.prefix.len(), base.v2) else {
+        s.oracle(&format!("{name}:output-readable"), false, input, || "charstrings INDEX not readable at the recorded offset / does not end the table".into());
+        return;
+    };
+    let n = base.glyphs.len();
+    s.oracle(&format!("{name}:everything-before-charstrings-identical"), out.prefix == base.prefix, input, || "prefix differs".into());
+    s.oracle(&format!("{name}:glyph-count-kept"), out.glyphs.len() == n, input, || format!("{} vs {n}", out.glyphs.len()));
+    let total: usize = (0..n).map(|g| repl.get(&(g as u32)).map(|d| d.len()).unwrap_or(base.glyphs[g].len())).sum();
+    let want = if total > cff_max(base.off_size) { (1..=4u8).find(|w| cff_max(*w) >= total).unwrap_or(4) } else { base.off_size };
+    s.count(&format!("{name}:offsize-{}-to-{}", base.off_size, want));
+    s.oracle(&format!("{name}:offset-size-widened-iff-needed"), out.off_size == want, input, || format!("total {total}: offSize {} want {want}", out.off_size));
+    if out.glyphs.len() != n { return; }
+    for g in 0..n {
+        match repl.get(&(g as u32)) {
+            Some(d) => s.oracle(&format!("{name}:listed-glyph-is-patch-data"), &out.glyphs[g] == d, input, || format!("gid {g}: got {} bytes want {}", out.glyphs[g].len(), d.len())),
+            None => s.oracle(&format!("{name}:other-glyph-unchanged"), out.glyphs[g] == base.glyphs[g], input, || format!("gid {g}")),
+        }
+    }
+}
+
+fn run_cff_groups(s: &mut Session, rng: &mut Rng, n_cases: usize) {
+    for case_no in 0..n_cases {
+        let c1 = compat_id(rng);
+        let ents: Vec<MapEntry> = (0..6).map(|_| MapEntry { delta: 0, format: 3, ignored: false }).collect();
+        let n = *rng.pick(&[1usize, 2, 3, 5, 8]);
+        // sizes chosen so that totals cross the 254 / 65534 limits of offSize 1 / 2
+        let size_class = rng.below(4);
+        let glen = |rng: &mut Rng| -> usize {
+            match size_class {
+                0 => *rng.pick(&[0usize, 1, 2, 3, 5, 9]),
+                1 => *rng.pick(&[0usize, 10, 40, 60, 100, 126, 127, 128]),
+                2 => *rng.pick(&[0usize, 1, 100, 250, 253, 254, 255]),
+                _ => *rng.pick(&[0usize, 5, 9000, 30000, 32767, 32768]),
+            }
+        };
+        let mk = |rng: &mut Rng, v2: bool| -> CffSpec {
+            let glyphs: Vec<Vec<u8>> = (0..n).map(|_| { let l = glen(rng); rng.bytes(l) }).collect();
+            let total: usize = glyphs.iter().map(|g| g.len()).sum();
+            let min = (1..=4u8).find(|w| cff_max(*w) >= total).unwrap();
+            let off_size = if rng.chance(1, 4) { (min + rng.below(2) as u8).min(4) } else { min };
+            CffSpec { v2, off_size, prefix: cff_prefix(rng, v2), glyphs }
+        };
+        let has1 = rng.chance(3, 4);
+        let has2 = !has1 || rng.chance(1, 2);
+        let cff = if has1 { Some(mk(rng, false)) } else { None };
+        let cff2 = if has2 { Some(mk(rng, true)) } else { None };
+        let ift = ift_format2_ext(&c1, rng.below(3) as usize, &ents, cff.as_ref().map(|c| c.prefix.len() as u32), cff2.as_ref().map(|c| c.prefix.len() as u32));
+        let mut tables: BTreeMap<u32, Vec<u8>> = BTreeMap::new();
+        tables.insert(HEAD, head_table(false, rng));
+        tables.insert(tg(b"maxp"), maxp_table(n as u16));
+        if let Some(c) = &cff { tables.insert(CFF_, cff_bytes(c)); }
+        if let Some(c) = &cff2 { tables.insert(CFF2, cff_bytes(c)); }
+        tables.insert(IFT_, ift);
+        if rng.chance(1, 2) { let l = rng.below(12) as usize; tables.insert(tg(b"tab1"), rng.bytes(l)); }
+        let font = build_font(&tables);
+        let Some(base) = tables_of(&font) else { continue };
+        let infos = infos_of(&font);
+        if infos.len() < 2 { s.count("cffgroup:too-few-infos"); continue; }
+        let n_p = rng.range(1, infos.len().min(3) as i64) as usize;
+        let agree = rng.chance(3, 4);
+        let mut pools: HashMap<(u32, u32), Vec<u8>> = HashMap::new();
+        let lens: Vec<usize> = (0..6).map(|_| glen(rng)).collect();
+        let mut patches: Vec<GkPatch> = vec![];
+        for _ in 0..n_p {
+            let tabs: Vec<u32> = match (has1, has2, rng.below(3)) {
+                (true, true, 0) => vec![CFF_],
+                (true, true, 1) => vec![CFF_, CFF2],
+                (true, true, _) => vec![CFF2],
+                (true, false, 0) => vec![tg(b"AAAA"), CFF_],
+                (true, false, _) => vec![CFF_],
+                (_, _, 0) => vec![CFF2, tg(b"zzzz")],
+                _ => vec![CFF2],
+            };
+            let spec = gen_group_patch(rng, n, tabs, &mut pools, agree, &lens);
+            patches.push(mk_patch(spec, &c1));
+        }
+        let pairs: Vec<(&Info, &GkPatch)> = (0..n_p).map(|pi| (&infos[pi], &patches[pi])).collect();
+        let sets: Vec<String> = pairs.iter().map(|(_, p)| p.spec.tables.iter().map(|t| String::from_utf8_lossy(&t.to_be_bytes()).trim().to_string()).collect::<Vec<_>>().join("+")).collect();
+        let input0 = || format!("cffgroup#{case_no} sets {sets:?} class {size_class}: gk n {} {} | {}", n_p,
+            pairs.iter().map(|(i, p)| format!("{} {}", i.req(), hex(&p.bytes))).collect::<Vec<_>>().join(" ").chars().take(1500).collect::<String>(),
+            font_req(&base).chars().take(1500).collect::<String>());
+        let want = match apply_seq(s, &font, &[&pairs[..]], &input0) {
+            Ok(t) => t,
+            Err(None) => continue,
+            Err(Some(resp)) => { s.oracle("cffgroup:clean-group-applies", false, input0, || resp.clone()); continue; }
+        };
+        s.count("cffgroup:ok");
+        for (spec, tag) in [(&cff, CFF_), (&cff2, CFF2)] {
+            let Some(c) = spec else { continue };
+            let Some(o) = get(&want, tag) else { s.oracle("cffgroup:table-kept", false, input0, || hex(&tag.to_be_bytes())); continue };
+            if pairs.iter().any(|(_, p)| p.spec.tables.contains(&tag)) {
+                cff_oracles(s, c, o, &pairs, &input0);
+            } else {
+                s.oracle("gk:untouched-table-identical", Some(o) == get(&base, tag), input0, || hex(&tag.to_be_bytes()));
+            }
+        }
+        for (tag, d) in &base {
+            if [IFT_, CFF_, CFF2].contains(tag) { continue; }
+            let same = get(&want, *tag).map(|o| canon_head(*tag, o) == canon_head(*tag, d)).unwrap_or(false);
+            s.oracle("gk:untouched-table-identical", same, input0, || format!("table {}", hex(&tag.to_be_bytes())));
+        }
+        {
+            let old = get(&base, IFT_).unwrap();
+            let mut w = old.clone();
+            for (i, _) in &pairs { w[i.bit / 8] |= 1 << (i.bit % 8); }
+            s.oracle("gk:only-the-patches-applied-bits-set", get(&want, IFT_) == Some(&w), input0, || "IFT".into());
+        }
+        if !agree || n_p < 2 { continue; }
+        let mut orders: Vec<Vec<usize>> = (1..n_p).map(|r| (0..n_p).map(|i| (i + r) % n_p).collect()).collect();
+        orders.push((0..n_p).rev().collect());
+        for ord in &orders {
+            let o: Vec<(&Info, &GkPatch)> = ord.iter().map(|&i| pairs[i]).collect();
+            let input = || format!("order {ord:?} of {}", input0());
+            let r = apply_seq(s, &font, &[&o[..]], &input);
+            same_tables_oracle(s, "cffgroup:any-order-identical-tables", r, &want, &input, "one call");
+            for cut in 1..n_p {
+                let r = apply_seq(s, &font, &[&o[..cut], &o[cut..]], &input);
+                same_tables_oracle(s, "cffgroup:any-grouping-identical-tables", r, &want, &input, &format!("split at {cut}"));
             }
         }
     }
@@ -1883,5 +2147,6 @@ fn run(cfg: &Config, s: &mut Session) {
     run_gk(s, &mut rng, 12 * k, true);
     run_gk_groups(s, &mut rng, 600 * k);
     run_boundary(s, &mut rng);
+    run_cff_groups(s, &mut rng, 300 * k);
     run_round(s, &mut rng, 500 * k);
 }
